@@ -5,6 +5,7 @@ import (
 	"fmt"
 	"os"
 	"path/filepath"
+	"strings"
 )
 
 // Finding is one entry of /verif/known_findings.json.
@@ -45,6 +46,16 @@ func LoadFindings(root, prop string) ([]Finding, error) {
 	for _, f := range all.Findings {
 		if f.Property == prop {
 			out = append(out, f)
+		}
+	}
+	if len(out) == 0 {
+		// a check that is not landed yet: read its own findings.json (development)
+		if b, err := os.ReadFile(filepath.Join(root, "harness", "props", strings.ToLower(prop), "findings.json")); err == nil {
+			var fs []Finding
+			if err := json.Unmarshal(b, &fs); err != nil {
+				return nil, fmt.Errorf("props/%s/findings.json: %v", strings.ToLower(prop), err)
+			}
+			out = fs
 		}
 	}
 	return out, nil
